@@ -25,6 +25,8 @@ func c14(p *core.Prog, r *core.Report) {
 	c14Handler(p, r)
 	c14Relay(p, r)
 	c14Cancel(p, r)
+	c14CancelGate(p, r)
+	c14SetTTL(p, r)
 	// per-attempt deadlines propagate: the attempt's context, not the overall one, reaches the call
 	retryClosureUsesAttemptCtx(p, r, "C14-R1")
 	// the caller's own wait ends with its context: every blocking wait on the
@@ -442,4 +444,50 @@ func c14Cancel(p *core.Prog, r *core.Report) {
 		})
 		r.Check(ok, "C14-R4", fname(f), "relay drops cancel frames unless PropagateCancel", p.Pos(f.Pos()), "early return under type == cancel && !PropagateCancel", "relay forwards (or drops) cancel frames regardless of the option")
 	}
+}
+
+// c14CancelGate: with SendCancelOnContextCanceled set, a cancelled call always
+// tells the peer: assuming the option is true, no return of Connection.onCancel
+// is reachable that does not pass the send of the cancel message (the state
+// of the connection is no reason to keep the remote handler running until its ttl).
+func c14CancelGate(p *core.Prog, r *core.Report) {
+	f := mustFunc(p, r, "", "Connection", "onCancel")
+	if f == nil {
+		return
+	}
+	isSend := func(i ssa.Instruction) bool {
+		_, ok := core.IsCall(i, "Connection.sendMessage")
+		return ok
+	}
+	if len(core.CallsIn(f, "Connection.sendMessage")) == 0 {
+		r.Errorf("Connection.onCancel: no sendMessage call found")
+		return
+	}
+	res := core.ReachAvoiding(f, nil, core.IsReturn, isSend, pruneBoolField("SendCancelOnContextCanceled", true))
+	r.Check(!res.Found, "C14-R4", fname(f), "with the option set every cancellation is sent to the peer", p.Pos(f.Pos()),
+		"assuming SendCancelOnContextCanceled no return avoids sendMessage(cancel)", "with SendCancelOnContextCanceled set a cancellation can still be swallowed (another condition decides): the remote handler runs until its ttl: "+p.TrailString(res))
+}
+
+// c14SetTTL: the relay's in-place ttl rewrite stores the clamped duration in
+// whole milliseconds, truncated: uint32(d / time.Millisecond) of the parameter
+// itself. Anything added before the division forwards more than the clamp.
+func c14SetTTL(p *core.Prog, r *core.Report) {
+	f := mustFunc(p, r, "", "lazyCallReq", "SetTTL")
+	if f == nil || len(f.Params) < 2 {
+		return
+	}
+	d := f.Params[len(f.Params)-1]
+	ok, n := false, 0
+	core.EachInstr(f, func(i ssa.Instruction) {
+		bo, isB := i.(*ssa.BinOp)
+		if !isB || bo.Op != token.QUO {
+			return
+		}
+		n++
+		k, isK := core.ConstInt(bo.Y)
+		if isK && k == msNanos && core.StripConv(bo.X) == ssa.Value(d) {
+			ok = true
+		}
+	})
+	r.Check(ok && n == 1, "C14-R3", fname(f), "ttl written = d / time.Millisecond (truncated)", p.Pos(f.Pos()), "the parameter itself is divided by one millisecond", "the ttl written into the forwarded frame is not the truncated millisecond count of the clamped duration (rounded up or offset): the relay forwards more than its maximum")
 }
